@@ -12,7 +12,7 @@ Local Open Scope N_scope.
 (** * Ledger bookkeeping *)
 
 Lemma set_state_data_same L : set_state_data L (ps_data (l_state L)) = L.
-Proof. destruct L as [[d b] bl ev mk h hs g]. reflexivity. Qed.
+Proof. destruct L as [[d b] bl ev mk h hs g pd]. reflexivity. Qed.
 
 Lemma se_put_ledger x s : st_store s = ps_data (l_state (se_ledger x)) -> se_ledger (se_put x s) = se_ledger x.
 Proof. intro E. unfold se_put. simpl. rewrite E. apply set_state_data_same. Qed.
@@ -121,12 +121,22 @@ Proof. rewrite pre_execute_with_param_ledger. reflexivity. Qed.
 (** the committing variant does change the persisted state (the model can express the violation) *)
 Definition writer_prog : prog evm_res :=
   POp (SPut 5 [1] [2]) (fun _ => POp SCommit (fun _ => PRet (mkEvmRes 0 [] 1 []))).
-Definition empty_ledger : ledger := mkLedger (mkPStore [] None) (mkPStore [] None) (mkPStore [] None) [] 0 [] [].
+Definition empty_ledger : ledger := mkLedger (mkPStore [] None) (mkPStore [] None) (mkPStore [] None) [] 0 [] [] [].
 
 Lemma committing_variant_changes_ledger :
   exists L', pre_execute_eip155_committing empty_ledger writer_prog = Some (Done (mkEvmRes 0 [] 1 []), L')
              /\ ps_data (l_state L') = [([5; 1], [2])] /\ L' <> empty_ledger.
 Proof. eexists. split; [vm_compute; reflexivity|]. split; [reflexivity|discriminate]. Qed.
+
+(** the overlay-recycling variant replaces a pending block's write set by the pre-execution's *)
+Definition pending_ledger : ledger :=
+  mkLedger (mkPStore [] None) (mkPStore [] None) (mkPStore [] None) [] 0 [] [] [[([5; 9], [9])]].
+
+Lemma recycling_variant_changes_pending :
+  l_pending (snd (pre_execute_eip155_recycling pending_ledger writer_prog)) = [[([5; 1], [2])]] /\
+  snd (pre_execute_eip155_recycling pending_ledger writer_prog) <> pending_ledger /\
+  snd (pre_execute_eip155 pending_ledger writer_prog) = pending_ledger.
+Proof. split; [vm_compute; reflexivity|]. split; [vm_compute; discriminate|apply pre_execute_eip155_ledger]. Qed.
 
 (** * What the engines observe: refinement to the plain ordered map *)
 
